@@ -1371,8 +1371,13 @@ class DiameterMessage:
 
         avp = self.__dict__[avp_key]
 
-        #: Updates DiameterMessage attributes.
-        self._avps.remove(avp)
+        #: Updates DiameterMessage attributes. The DiameterAVP object is 
+        #: removed by identity: list.remove() compares by byte stream and 
+        #: would drop the first equal-valued AVP instead.
+        for index, _avp in enumerate(self._avps):
+            if _avp is avp:
+                del self._avps[index]
+                break
         self.__dict__.pop(avp_key, None)
 
         #: It updates the DiameterMessage object length attribute with the 
